@@ -406,6 +406,20 @@ Definition model_schema : schema :=
        (s "input_bytes");
        (s "output_bytes")]] |}.
 
+(* ------------------------------------------------------------------ VgiJsonFormatter.formatTime *)
+(* dt = datetime.fromtimestamp(record.created, tz=UTC);  dt.strftime("%Y-%m-%dT%H:%M:%S.") + f"{dt.microsecond // 1000:03d}Z".
+   [pre] = the 19 characters strftime yields before the dot (calendar arithmetic is the C library's: an input),
+   [micro] = dt.microsecond.  floor = true is the source (//), floor = false the nearest-millisecond variant of R_C34. *)
+Definition dig (n : N) : N := 48 + n.
+(* f"{n:03d}" for n < 10000 *)
+Definition pad3 (n : N) : str :=
+  if n <? 1000 then [dig (n / 100); dig ((n / 10) mod 10); dig (n mod 10)]
+  else [dig (n / 1000); dig ((n / 100) mod 10); dig ((n / 10) mod 10); dig (n mod 10)].
+Definition millis (floor : bool) (micro : N) : N := if floor then micro / 1000 else (micro + 500) / 1000.
+Definition render_ts_with (floor : bool) (pre : str) (micro : N) : str := pre ++ [46] ++ pad3 (millis floor micro) ++ [90].
+Definition render_ts : str -> N -> str := render_ts_with true.
+Definition ts_case (x : str * N) : str := render_ts (fst x) (snd x).
+
 (* ------------------------------------------------------------------ correspondence entry point *)
 (* per request: the projection of every record  (method_type, status, error_type, error_message, cancelled,
    http_status, truncated marker, has request_data, stream-id class) *)
